@@ -1057,10 +1057,13 @@ def differ_pairs(rng, S, gen):
     if shared:
         r = rng.choice(shared)
         occ = [p for p in sites(S, lambda x: x["t"] == "prior" and x["ref"] == r)]
+        # (an operand of `xx * xx` cannot be split: both operands are held in the one variable xx)
+        occ = [p for p in occ if not (p and p[-1] in ("l", "r") and get_at(S["model"], p[:-1]).get("lv") == get_at(S["model"], p[:-1]).get("rv"))] or occ[:0]
         b = _copy.deepcopy(S)
         b["pool"].append(_copy.deepcopy(pool[r]))
-        set_at(b["model"], rng.choice(occ), {"t": "prior", "ref": len(b["pool"]) - 1})
-        add("sharing_split", b, ["sharing"])
+        if occ:
+            set_at(b["model"], rng.choice(occ), {"t": "prior", "ref": len(b["pool"]) - 1})
+            add("sharing_split", b, ["sharing"])
     elif len(set(refs)) >= 2:
         i, j = rng.sample(sorted(set(refs)), 2)
         a = _copy.deepcopy(S)
@@ -1367,7 +1370,7 @@ def big_set(v):
 def gen_cases(ctx):
     rng = ctx.rng
     quick = ctx.tier != "thorough"
-    nbase = 56 if quick else 800
+    nbase = 44 if quick else 800
     cases = []
     fits = 0
     for k in range(nbase):
@@ -1402,7 +1405,7 @@ def gen_cases(ctx):
             cases.append({"kind": "pair", "how": "fit", "expect": "same", "a": a, "b": b, "labels": reload_labels(S, "fit")})
     for _ in range(3 if quick else 20):
         cases += special_pairs(rng, Gen(rng, clean=True))
-    for _ in range(140 if quick else 2500):
+    for _ in range(120 if quick else 2500):
         v = gen_value(rng)
         cases.append({"kind": "walk", "value": v, "labels": ["set_order"] if big_set(v) else []})
     specials = [0.0, -0.0, 5e-9, -5e-9, 1.5e-8, 2.5e-8, 3.5e-8, 0.1 + 0.2, 1e-8, 0.30000000000000004, 1e10 + 0.5, 2.0 ** 53 * 1e-8,
@@ -1482,7 +1485,9 @@ def oracle(c, r):
             if b.get("route") == "reload":
                 pc = b.get("prior_count")
                 if pc and pc[0] is not None and pc[1] is not None and pc[0] != pc[1]:
-                    out.append(("reload changed the number of free parameters (%s -> %s)" % tuple(pc), False))
+                    # (a ModifiedPrior silently replaced by a default prior changes the count: that IS the recorded finding;
+                    #  a fixed component never does)
+                    out.append(("reload changed the number of free parameters (%s -> %s)" % tuple(pc), ["reload:modified"]))
                 if "reloaded_tag" in b and b.get("reloaded_tag") != c["a"].get("tag"):
                     out.append(("reload changed the unique tag", False))
             if b.get("route") in ("files", "fit") and "paths_identifier" in b:
@@ -1546,7 +1551,7 @@ def coq_terms(c, r):
             sr = "search_raised" in b
             out.append("CReload %s %s %s" % (search_term(S["search"]), cbool(sr), "ONone" if sr else obj_term(b["abs_search"])))
         if c["b"].get("build", {}).get("route") in ("files", "fit") and "raised" not in b and b.get("abs_model") \
-                and "dropping_instance" not in features(c["b"]):
+                and "dropping_instance" not in features(c["b"]) and not silent_default(c["b"]):
             S = c["b"]
             out.append("CReload %s false %s" % (node_term(S["model"], S["pool"]), obj_term(b["abs_model"])))
     if k == "walk":
@@ -1671,7 +1676,8 @@ def run(ctx):
             ctx.oracle["failures"] += 1
             small = {k: (v if k not in ("abs_model", "abs_search", "abs") else "...") for k, v in ok.items()} if "a" not in ok else \
                 {s: {k: v for k, v in ok[s].items() if not k.startswith("abs") and k != "export"} for s in ("a", "b")}
-            ctx.failure("oracle", msg, c, classes=labels if labelled else [], impl=small)
+            usable = labels if labelled is True else [l for l in labels if labelled and l in labelled]
+            ctx.failure("oracle", msg, c, classes=usable, impl=small)
         for t in coq_terms(c, ok):
             coq_cases.append(t)
             coq_owner.append(i)
